@@ -18,7 +18,7 @@ CHECKS = {
     "C06": dict(
         level="model_checking",
         rule="full table method(8) x kind(2) x difference class(6) x child deleting(2) x still desired(2) x children(1-2) for composite and decorator; "
-             "non-trivial = the statement demands at least one write or an error for the case; x an undesired sibling of the same kind whose DELETE is refused (403): reported, and the other children are treated exactly as without it; difference class 'foreign item in a list the hook names and empties'",
+             "non-trivial = the statement demands at least one write or an error for the case; x an undesired sibling of the same kind whose DELETE is refused (403): reported, and the other children are treated exactly as without it; difference class 'foreign item in a list the hook names and empties'; Widget cases declare a third child type with the same Kind and plural in the core group (opposite strategy, namesake child that never differs)",
         units=[
             dict(pkg=COMPOSITE, test="TestVerifC06", shards=dict(quick=4, thorough=8), budget=dict(quick=300, thorough=900)),
             dict(pkg=DECORATOR, test="TestVerifC06", shards=dict(quick=4, thorough=8), budget=dict(quick=300, thorough=900)),
@@ -28,7 +28,7 @@ CHECKS = {
     "C03": dict(
         level="model_checking",
         rule="parent scope(2) x declared child kinds(3 sets per scope) x generateSelector(2) x 2 (thorough: 3) slots each ranging over role(9 composite / 8 decorator) x namespace(2) x kind(declared + one undeclared); "
-             "one real sync per case; non-trivial = at least one object present in the cluster; every fifth non-trivial case is also run after a second controller on the same parent and child resources was started and stopped again (the informers this controller lists from must survive); role 'orphan in the cache, adopted by another parent on the server' (the adoption is refused; the object must never be shown to the hook); selector kinds: explicit matchLabels, generated, and negative-only (tier NotIn [canary]: selects objects without labels)",
+             "one real sync per case; non-trivial = at least one object present in the cluster; every fifth non-trivial case is also run after a second controller on the same parent and child resources was started and stopped again (the informers this controller lists from must survive); role 'orphan in the cache, adopted by another parent on the server' (the adoption is refused; the object must never be shown to the hook); selector kinds: explicit matchLabels, generated, and negative-only (tier NotIn [canary]: selects objects without labels); decorator: a second decorated parent kind with a namesake parent whose attachments are its own",
         units=[
             dict(pkg=COMPOSITE, test="TestVerifC03", shards=dict(quick=8, thorough=16), budget=dict(quick=300, thorough=3000)),
             dict(pkg=DECORATOR, test="TestVerifC03", shards=dict(quick=4, thorough=16), budget=dict(quick=300, thorough=3000)),
@@ -38,7 +38,7 @@ CHECKS = {
     "C16": dict(
         level="model_checking",
         rule="target (status subresource(2) x labels k1,k2 (6) x annotations (6) x status(2) x foreign finalizer(2)) x response (label map over k1,k3[,k2 thorough] in {unnamed,value,null} x annotation map likewise x status {null,equal,different}) x mode {no finalize hook, finalize hook+live, finalizing, finalizing+finalized} x cache fresh/stale; "
-             "plus selector table: label selector kind(4) x annotation selector kind(4) x matches(2x2) x leftover finalizer(2) x finalize hook(2); every case is distinct and runs one real sync; value alphabet includes the empty string (for the key the target lacks)",
+             "plus selector table: label selector kind(4) x annotation selector kind(4) x matches(2x2) x leftover finalizer(2) x finalize hook(2); every case is distinct and runs one real sync; value alphabet includes the empty string (for the key the target lacks); bystander attachments of a previous incarnation of the target and of a namesake in another API group",
         units=[
             dict(pkg=DECORATOR, test="TestVerifC16", shards=dict(quick=16, thorough=16), budget=dict(quick=600, thorough=3000)),
         ],
@@ -67,7 +67,7 @@ CHECKS = {
     "C13": dict(
         level="model_checking",
         rule="grammar: valid response with every node replaced by each of 12 JSON values (missing, null, true, 0, -1, 1e400, 2^63, string, [], [null], {}, {x:null}); singles exhaustively (thorough: all pairs for the base configurations) + 17 raw bodies + 6 non-200 statuses, "
-             "x mode(non-rolling, rolling, rolling with two live revisions, finalizing) x generateSelector x strict/loose, for composite sync/finalize, customize and decorator sync/finalize responses; every rejected or failing case is followed by the work-queue retry (same parent, same answer: no panic, rejected again, no writes) and, for customize answers, by a related-object event; every case distinct; mode 4: a rollout that waits for a missing child of the latest revision while another child is still on the old one",
+             "x mode(non-rolling, rolling, rolling with two live revisions, finalizing) x generateSelector x strict/loose, for composite sync/finalize, customize and decorator sync/finalize responses; every rejected or failing case is followed by the work-queue retry (same parent, same answer: no panic, rejected again, no writes) and, for customize answers, by a related-object event; every case distinct; mode 4: a rollout that waits for a missing child of the latest revision while another child is still on the old one; mode 5: rollout under way; plus an answer listing children of one kind under two versions (12 repetitions per configuration: bucket order is map order)",
         units=[
             dict(pkg=COMPOSITE, test="TestVerifC13", shards=dict(quick=12, thorough=16), budget=dict(quick=600, thorough=3000)),
             dict(pkg=DECORATOR, test="TestVerifC13", shards=dict(quick=4, thorough=16), budget=dict(quick=600, thorough=3000)),
@@ -77,7 +77,7 @@ CHECKS = {
     "C19": dict(
         level="model_checking",
         rule="part 1: status(12 incl. transport error) x ETag header(3) x Retry-After(5) x body(6) x strict/loose x plain/etag executor x cache state(3) on the real webhookExecutor.Call; "
-             "part 2: ALL interleavings of 2 (thorough: 3 -> 1680 schedules) concurrent calls with the same cache key at the granularity enrich-headers / server decision / adjust+decode, x every pattern of server content changes x cache primed or empty + a cache primed with a body that carries an unknown field (stored with its ETag before decoding: strict mode must reject it again when a 304 brings it back); plus every sequence of 3 (thorough 4) calls through one ETag-enabled executor over 2 parents x 9 answers (200 with E1/E2/no ETag, 200+E1 with an unknown field, 304, 412, 412 carrying an ETag and a JSON body, 503 error page, 429) in loose and strict mode (2 x 18^3 = 11 664; thorough 209 952), compared call by call with a reference model; plus a production-built executor (real http.Client behind the metrics instrumentation, timeout 200 ms) against a server that stops talking before the headers / after the headers / in the middle of the body, with and without ETag, loose and strict: the call returns an error (waited for with a 60 s liveness watchdog) (per parent the (ETag, body) pair that last arrived together): If-None-Match sent, verdict, decoded body, cache content; delay asserted for every Retry-After form incl. absent / garbage (0)",
+             "part 2: ALL interleavings of 2 (thorough: 3 -> 1680 schedules) concurrent calls with the same cache key at the granularity enrich-headers / server decision / adjust+decode, x every pattern of server content changes x cache primed or empty + a cache primed with a body that carries an unknown field (stored with its ETag before decoding: strict mode must reject it again when a 304 brings it back); plus every sequence of 3 (thorough 4) calls through one ETag-enabled executor over 2 parents x 9 answers (200 with E1/E2/no ETag, 200+E1 with an unknown field, 304, 412, 412 carrying an ETag and a JSON body, 503 error page, 429) in loose and strict mode (2 x 18^3 = 11 664; thorough 209 952), compared call by call with a reference model; plus a production-built executor (real http.Client behind the metrics instrumentation, timeout 200 ms) against a server that stops talking before the headers / after the headers / in the middle of the body, with and without ETag, loose and strict: the call returns an error (waited for with a 60 s liveness watchdog) (per parent the (ETag, body) pair that last arrived together): If-None-Match sent, verdict, decoded body, cache content; delay asserted for every Retry-After form incl. absent / garbage (0); 2-thread interleavings also with one opaque tag alternating between weak and strong form",
         units=[
             dict(pkg=HOOKS, test="TestVerifC19", shards=dict(quick=2, thorough=8), budget=dict(quick=300, thorough=900)),
             dict(pkg=HOOKS, test="TestVerifC19Seq", shards=dict(quick=4, thorough=16), budget=dict(quick=300, thorough=900)),
@@ -112,7 +112,7 @@ CHECKS = {
     "C10": dict(
         level="model_checking",
         rule="explicit-state BFS over parent life cycles per configuration (finalize hook none/keep/teardown/finalized-at-once x rolling x hook removed later): events create, relabel (match/unmatch), delete background/foreground/orphan, foreign finalizer add/drop, spec edit, deliverAll, gc, reconfigure, sync, sync with a caused conflict / injected 500 on the finalizer write; "
-             "two roots (empty cluster; steady parent with children); state = canonical store + caches + staleness + one-shot budgets; monitors F1-F8 on every sync transition (F8: in a fault-free sync on a fresh cache in which every finalize answer said finalized:true the finalizer does come off); finalize programs also include per-revision answers (finalized only for the edited template) with children dropped ('split') or kept ('split-keep'): F4 holds a finalized:false answer against the removal when the revision it was given for is still alive after the sync; in the rolling configurations 'relabel' removes the parent's labels altogether",
+             "two roots (empty cluster; steady parent with children); state = canonical store + caches + staleness + one-shot budgets; monitors F1-F8 on every sync transition (F8: in a fault-free sync on a fresh cache in which every finalize answer said finalized:true the finalizer does come off); finalize programs also include per-revision answers (finalized only for the edited template) with children dropped ('split') or kept ('split-keep'): F4 holds a finalized:false answer against the removal when the revision it was given for is still alive after the sync; in the rolling configurations 'relabel' removes the parent's labels altogether; event 'replace': the parent is deleted and re-created under its name (new UID) before the finalizer has been added",
         units=[
             dict(pkg=COMPOSITE, test="TestVerifC10", shards=dict(quick=15, thorough=15), budget=dict(quick=240, thorough=3000)),
             dict(pkg=DECORATOR, test="TestVerifC10", shards=dict(quick=7, thorough=7), budget=dict(quick=240, thorough=3000)),
@@ -136,7 +136,7 @@ CHECKS = {
     "C08": dict(
         level="model_checking",
         rule="all fair rollouts: children n=1..3 (thorough 4) x parent/child scope (namespaced/namespaced, cluster/namespaced, cluster/cluster) x RollingInPlace/RollingRecreate x status checks on/off x generateSelector on/off x the sync index (-1..3n+4) at which a second spec change arrives; "
-             "fair environment after every sync (caches delivered, GC, every child healthy and observed); completion within 2n+6 / 3n+6 syncs; first change template or template+scale-down, second change template / scale-down / scale-up, Updated=True, exactly one ControllerRevision; never 'missing child' for a cached child; plus two rolling child kinds whose children share names (n=1..2, thorough 3), the second kind dropped / brought back by a revisioned field before or during a template rollout (first change tpl / tpl+drop / drop, second change tpl / drop / tpl+drop / add / scale-down at every sync index); the history search also fires syncs whose first / second ControllerRevision write is refused (500); the children's controller reports observedGeneration = generation / 0 / nothing",
+             "fair environment after every sync (caches delivered, GC, every child healthy and observed); completion within 2n+6 / 3n+6 syncs; first change template or template+scale-down, second change template / scale-down / scale-up, Updated=True, exactly one ControllerRevision; never 'missing child' for a cached child; plus two rolling child kinds whose children share names (n=1..2, thorough 3), the second kind dropped / brought back by a revisioned field before or during a template rollout (first change tpl / tpl+drop / drop, second change tpl / drop / tpl+drop / add / scale-down at every sync index); the history search also fires syncs whose first / second ControllerRevision write is refused (500); the children's controller reports observedGeneration = generation / 0 / nothing; the second kind of the two-kind rollouts is the core-group twin of the first (same Kind, same plural, same child names)",
         units=[
             dict(pkg=COMPOSITE, test="TestVerifC08", shards=dict(quick=8, thorough=16), budget=dict(quick=300, thorough=1200)),
             dict(pkg=COMPOSITE, test="TestVerifC08Hist", shards=dict(quick=8, thorough=16), budget=dict(quick=600, thorough=3000)),
@@ -155,7 +155,7 @@ CHECKS = {
     "C09": dict(
         level="fault_enumeration",
         rule="for every fair rollout scenario (n=1..2 children, thorough 3; RollingInPlace/RollingRecreate; generateSelector on/off; optional second template change at sync k) and every sync of it: (a) every crash cut = each prefix of the non-child requests, then every subset of the child writes (sync unwound, controller rebuilt, caches refilled from the store); "
-             "(b) each of 409, 500, timeout (not applied), lost response (applied) on every single request; then the fair continuation. A deviation is non-trivial and distinct by construction (sync index x request identity x kind / cut); invariant added: an existing desired child whose old revision still has a record is itself in some record",
+             "(b) each of 409, 500, timeout (not applied), lost response (applied) on every single request; then the fair continuation. A deviation is non-trivial and distinct by construction (sync index x request identity x kind / cut); invariant added: an existing desired child whose old revision still has a record is itself in some record; twin-kind scenarios (two rolling kinds with the same Kind and child names, entry order of the starting revision pinned both ways)",
         units=[
             dict(pkg=COMPOSITE, test="TestVerifC09", shards=dict(quick=16, thorough=16), budget=dict(quick=600, thorough=3300)),
         ],
@@ -165,7 +165,7 @@ CHECKS = {
     "C12": dict(
         level="fault_enumeration",
         rule="base scenarios: composite 'mixed' sync (finalizer add, adopt, release, delete undesired, in-place update, recreate, create, status write), composite 'rolling' (second move of a rollout: ControllerRevision writes + child update), decorator 'mixed' (finalizer, label/annotation/status writes, attachment create/update/recreate/delete); "
-             "every request of the sync x each of 404, 409, 410, 422, 500, timeout, lost response (singles exhaustively; thorough: all pairs of requests for 409/500/timeout), sticky per-child failures x 3 kinds, a failing child combined with a benign end of the status path, hook 500/503/429/refused/garbage, a 429 for only the old / only the latest revision's call of a rollout; real benign races (the environment really removes / edits the target just before each child get/update/delete: tolerated = the hook is still called, no error is reported, same final state); each through the real processNextWorkItem, then fault-free to quiescence; plus the mixed scenario with an ETag-enabled hook behind request-derived ETag middleware (tag on every answer incl. error pages, 304 on If-None-Match), hook error pages with JSON bodies; quiescence after the fault requires an error-free sync; fault kinds 404, 409, 410, 422, 500, 403, 429, server timeout, transport timeout, lost response",
+             "every request of the sync x each of 404, 409, 410, 422, 500, timeout, lost response (singles exhaustively; thorough: all pairs of requests for 409/500/timeout), sticky per-child failures x 3 kinds, a failing child combined with a benign end of the status path, hook 500/503/429/refused/garbage, a 429 for only the old / only the latest revision's call of a rollout; real benign races (the environment really removes / edits the target just before each child get/update/delete: tolerated = the hook is still called, no error is reported, same final state); each through the real processNextWorkItem, then fault-free to quiescence; plus the mixed scenario with an ETag-enabled hook behind request-derived ETag middleware (tag on every answer incl. error pages, 304 on If-None-Match), hook error pages with JSON bodies; quiescence after the fault requires an error-free sync; fault kinds 404, 409, 410, 422, 500, 403, 429, server timeout, transport timeout, lost response; race 'parent-replaced' before every request that reads or writes the parent",
         units=[
             dict(pkg=COMPOSITE, test="TestVerifC12", shards=dict(quick=8, thorough=16), budget=dict(quick=300, thorough=1800)),
             dict(pkg=DECORATOR, test="TestVerifC12", shards=dict(quick=2, thorough=4), budget=dict(quick=300, thorough=900)),
@@ -176,7 +176,7 @@ CHECKS = {
     "C04": dict(
         level="model_checking",
         rule="part 1: selector form(6: matchLabels, In, NotIn, Exists, generated, empty) x object labels(3) x owner-reference list(6) x object deleting(2) x cached parent alive/deleting x live parent(4: same, deleting, replaced UID, gone) x children and ControllerRevisions x desired-child labels match/no-match (with selector generation: a foreign controller-uid label) x the live object's other owner references diverging from the cached ones (one added / one removed since observed: neither dropped nor resurrected), one real sync each; "
-             "part 2: two parents with the same selector adopt one orphan concurrently - all interleavings at API-request granularity with at most 2 preemptions (thorough: unbounded) under the cooperative scheduler; plus the adoption re-check itself failing (500 / 429 / timeout on the uncached parent read) with a second candidate in the same claim pass; live owner list taken over by another parent (one reference, not ours)",
+             "part 2: two parents with the same selector adopt one orphan concurrently - all interleavings at API-request granularity with at most 2 preemptions (thorough: unbounded) under the cooperative scheduler; plus the adoption re-check itself failing (500 / 429 / timeout on the uncached parent read) with a second candidate in the same claim pass; live owner list taken over by another parent (one reference, not ours); owner variant: an owner of the parent's kind and name in another API group (references compared by UID)",
         units=[
             dict(pkg=COMPOSITE, test="TestVerifC04", shards=dict(quick=4, thorough=8), budget=dict(quick=300, thorough=1800)),
         ],
@@ -222,7 +222,7 @@ CHECKS = {
     "C20": dict(
         level="model_checking",
         rule="explicit-state BFS over sequences of CompositeController / DecoratorController events through the real Metacontroller.Reconcile: create, spec-changing update, no-op (metadata-only) update, delete, with 18 (decorator 16) spec variants = 2 plain + 8 valid optional-webhook-field variants (every ETag field set or unset, timeout zero/negative, strict, service+path) + 8 (6) configurations that cannot start; "
-             "one name with the full alphabet to depth 3 (thorough 4; the frontier empties = any number of further events), two names with a reduced alphabet to depth 3 (thorough 5, full alphabet 3); state = stored spec + running spec per name; after every event: instance set, specs, restart/no-op identity, stopped instances (queue shut, no handlers), factory refcounts, parent-event wake-up and hook isolation + a stop while the first sync is still waiting for the customize hook: subscriptions to related resources opened by that sync after Stop began must be released; plus: stop while a worker waits for the cache of a related resource whose LIST never succeeds (subscription must be released); spec alphabet includes resyncPeriodSeconds 0 / negative and an empty revisionHistory block",
+             "one name with the full alphabet to depth 3 (thorough 4; the frontier empties = any number of further events), two names with a reduced alphabet to depth 3 (thorough 5, full alphabet 3); state = stored spec + running spec per name; after every event: instance set, specs, restart/no-op identity, stopped instances (queue shut, no handlers), factory refcounts, parent-event wake-up and hook isolation + a stop while the first sync is still waiting for the customize hook: subscriptions to related resources opened by that sync after Stop began must be released; plus: stop while a worker waits for the cache of a related resource whose LIST never succeeds (subscription must be released); spec alphabet includes resyncPeriodSeconds 0 / negative and an empty revisionHistory block; the CRDs carry per-version subresources (older version of nothings has status, v1 has not)",
         units=[
             dict(pkg=COMPOSITE, test="TestVerifC20", shards=dict(quick=8, thorough=16), budget=dict(quick=600, thorough=3000)),
             dict(pkg=DECORATOR, test="TestVerifC20", shards=dict(quick=8, thorough=16), budget=dict(quick=600, thorough=3000)),
